@@ -254,7 +254,39 @@ func genRRS(r *lib.Run, rng *lib.Rand) {
 	}
 }
 
+// registered RR TYPE / QTYPE values (IANA) + meta types; ProcessDNS must treat the question type, the opcode,
+// the rcode and every header flag as irrelevant for what it stores from the answer section
+var qtypes = []int{1, 2, 5, 6, 12, 13, 15, 16, 17, 18, 24, 25, 28, 29, 33, 35, 36, 37, 39, 41, 42, 43, 44, 45, 46, 47, 48, 49, 50, 51, 52, 53,
+	55, 59, 60, 61, 62, 63, 64, 65, 99, 108, 109, 249, 250, 251, 252, 253, 254, 255, 256, 257, 32768, 32769, 0, 65535}
+
+func genPDNSHeaderSweep(r *lib.Run, rng *lib.Rand) {
+	one := func(flags, qtype int, class string) {
+		m := genResponse(rng, false)
+		for len(m.an) == 0 {
+			m = genResponse(rng, false)
+		}
+		m.flags, m.qtype = flags, qtype
+		r.Do("pdns", lib.Hex(m.build())+":-")
+		r.Stat("class.pdns."+class, 1)
+	}
+	for _, qt := range qtypes {
+		one(0x8180, qt, "qtype-registered")
+	}
+	for i := 0; i < 150; i++ {
+		one(0x8180, rng.Intn(65536), "qtype-random")
+	}
+	for op := 0; op < 16; op++ { // every opcode x rcode, QR / AA / TC / RD / RA / Z bits at random
+		for rc := 0; rc < 16; rc++ {
+			one(rng.Intn(2)<<15|op<<11|rng.Intn(16)<<7&0x0780|rng.Intn(8)<<4|rc, rng.Pick(1, 28, 255), "opcode-rcode")
+		}
+	}
+	for i := 0; i < 100; i++ {
+		one(rng.Intn(65536), rng.Intn(65536), "header-random")
+	}
+}
+
 func genPDNS(r *lib.Run, rng *lib.Rand) {
+	genPDNSHeaderSweep(r, rng)
 	H := 700
 	if r.Thorough() {
 		H = 12000
